@@ -296,7 +296,7 @@ Section Run.
     Hypothesis CFj : forall p, p < bm -> cf_junk hashf padz bs (failed0 p).
     Hypothesis CFr : forall p, p < bm -> cf_rec hashf padz bs (failed0 p) (rec0 p) (vs p).
     Hypothesis CFv : forall p, p < bm -> cf_vec hashf padz bs (failed0 p) (vs p).
-    Hypothesis CFs : forall p, p < bm -> cf_search hashf bs (co_nosearch o) fs0 (failed0 p) (vs p).
+    Hypothesis CFs : forall p, p < bm -> forall fsx, cf_search hashf bs (co_nosearch o) fsx (failed0 p) (vs p).
     (* in every stripe: at most as many damaged data blocks as intact parity levels *)
     Hypothesis Hcount : forall p, p < bm ->
         length (filter (is_bad hashf bs c p s0) (seq 0 (length (c_disks c)))) <= length (filter (good_level (vs p) (rec0 p)) (seq 0 nlev)).
@@ -371,7 +371,7 @@ Section Run.
       assert (CFj' : cf_junk hashf padz bs (flat_map (fent_of hashf bs c k s) (seq 0 (length (c_disks c))))) by (rewrite Efailed; apply CFj; exact Hk).
       assert (CFr' : cf_rec hashf padz bs (flat_map (fent_of hashf bs c k s) (seq 0 (length (c_disks c)))) (map (prow (r_par s) k) (seq 0 nlev)) (vs k)) by (rewrite Efailed, Erec; apply CFr; exact Hk).
       assert (CFv' : cf_vec hashf padz bs (flat_map (fent_of hashf bs c k s) (seq 0 (length (c_disks c)))) (vs k)) by (rewrite Efailed; apply CFv; exact Hk).
-      assert (CFs' : cf_search hashf bs (co_nosearch o) fs0 (flat_map (fent_of hashf bs c k s) (seq 0 (length (c_disks c)))) (vs k)) by (rewrite Efailed; apply CFs; exact Hk).
+      assert (CFs' : forall fsx, cf_search hashf bs (co_nosearch o) fsx (flat_map (fent_of hashf bs c k s) (seq 0 (length (c_disks c)))) (vs k)) by (intro fsx; rewrite Efailed; apply CFs; exact Hk).
       assert (Hcnt : length (filter (is_bad hashf bs c k s) (seq 0 (length (c_disks c)))) <= length (filter (good_level (vs k) (map (prow (r_par s) k) (seq 0 nlev))) (seq 0 nlev))).
       { rewrite (filter_ext_in2 _ _ _ (fun j _ => Ebad j)), Erec. apply Hcount. exact Hk. }
       assert (Hpl : nlev <= length (r_par s)) by (rewrite (ri_parlen k s I); exact Hparlen).
@@ -823,7 +823,7 @@ Section Run.
     Hypothesis CFj : forall p, p < bm -> cf_junk hashf padz bs (failed0 p).
     Hypothesis CFr : forall p, p < bm -> cf_rec hashf padz bs (failed0 p) (rec0 p) (vs p).
     Hypothesis CFv : forall p, p < bm -> cf_vec hashf padz bs (failed0 p) (vs p).
-    Hypothesis CFs : forall p, p < bm -> cf_search hashf bs (co_nosearch o) fs (failed0 p) (vs p).
+    Hypothesis CFs : forall p, p < bm -> forall fsx, cf_search hashf bs (co_nosearch o) fsx (failed0 p) (vs p).
     Hypothesis Hcount : forall p, p < bm ->
         length (filter (is_bad hashf bs c p s0) (seq 0 (length (c_disks c)))) <= length (filter (good_level (vs p) (rec0 p)) (seq 0 nlev)).
 
@@ -868,7 +868,7 @@ Section Run.
       assert (CFj' : cf_junk hashf padz bs (flat_map (fent_of hashf bs c k s) (seq 0 (length (c_disks c))))) by (rewrite Efailed; apply CFj; exact Hk).
       assert (CFr' : cf_rec hashf padz bs (flat_map (fent_of hashf bs c k s) (seq 0 (length (c_disks c)))) (map (prow (r_par s) k) (seq 0 nlev)) (vs k)) by (rewrite Efailed, Erec; apply CFr; exact Hk).
       assert (CFv' : cf_vec hashf padz bs (flat_map (fent_of hashf bs c k s) (seq 0 (length (c_disks c)))) (vs k)) by (rewrite Efailed; apply CFv; exact Hk).
-      assert (CFs' : cf_search hashf bs (co_nosearch o) fs (flat_map (fent_of hashf bs c k s) (seq 0 (length (c_disks c)))) (vs k)) by (rewrite Efailed; apply CFs; exact Hk).
+      assert (CFs' : forall fsx, cf_search hashf bs (co_nosearch o) fsx (flat_map (fent_of hashf bs c k s) (seq 0 (length (c_disks c)))) (vs k)) by (intro fsx; rewrite Efailed; apply CFs; exact Hk).
       assert (Hcnt : length (filter (is_bad hashf bs c k s) (seq 0 (length (c_disks c)))) <= length (filter (good_level (vs k) (map (prow (r_par s) k) (seq 0 nlev))) (seq 0 nlev))).
       { rewrite (filter_ext_in2 _ _ _ (fun j _ => Ebad j)), Erec. apply Hcount. exact Hk. }
       destruct (check_step_full hashf padz truncf bs nlev reduced newino now o c fs k s (vs k) Hplain Hcheck (Hsyn k Hk)
@@ -982,7 +982,7 @@ Record recoverable (hashf : bid -> N -> hval) (padz : bid -> N -> bool) (bs : N)
   rc_rec : forall p, p < bm -> cf_rec hashf padz bs (flat_map (fent_of hashf bs c p (st0 fs par)) (seq 0 (length (c_disks c))))
                                       (map (prow par p) (seq 0 nlev)) (vs p);
   rc_vec : forall p, p < bm -> cf_vec hashf padz bs (flat_map (fent_of hashf bs c p (st0 fs par)) (seq 0 (length (c_disks c)))) (vs p);
-  rc_search : forall p, p < bm -> cf_search hashf bs nosearch fs (flat_map (fent_of hashf bs c p (st0 fs par)) (seq 0 (length (c_disks c)))) (vs p);
+  rc_search : forall p, p < bm -> forall fsx, cf_search hashf bs nosearch fsx (flat_map (fent_of hashf bs c p (st0 fs par)) (seq 0 (length (c_disks c)))) (vs p);
   rc_count : forall p, p < bm ->
       length (filter (is_bad hashf bs c p (st0 fs par)) (seq 0 (length (c_disks c))))
       <= length (filter (good_level (vs p) (map (prow par p) (seq 0 nlev))) (seq 0 nlev))
